@@ -175,6 +175,17 @@ partial def loop (hs ht : IO.FS.Handle) (cfg : Cfg) (n drift : Nat) : IO (Nat ×
           if fs.isEmpty then IO.println s!"V {sc.id} C15 ok n={k}"
           else for ftxt in fs.eraseDups do IO.println s!"V {sc.id} C15 FAIL {ftxt}"
           for ftxt in (Big.c15Verdicts sc model).2.eraseDups do IO.println s!"VM {sc.id} C15 FAIL {ftxt}"
+        for (pr, fn) in [("C01", Big.c01B), ("C06", Big.c06B), ("C11", Big.c11B)] do
+          if cfg.props.contains pr then
+            let (k, fs) := Big.perOpVerdicts fn sc impl
+            if fs.isEmpty then IO.println s!"V {sc.id} {pr} ok n={k}"
+            else for ftxt in fs.eraseDups do IO.println s!"V {sc.id} {pr} FAIL {ftxt}"
+            for ftxt in (Big.perOpVerdicts fn sc model).2.eraseDups do IO.println s!"VM {sc.id} {pr} FAIL {ftxt}"
+        if cfg.props.contains "C09" then
+          let (k, fs) := Big.c09Scan sc.ops impl
+          if fs.isEmpty then IO.println s!"V {sc.id} C09 ok n={k}"
+          else for ftxt in fs do IO.println s!"V {sc.id} C09 FAIL {ftxt}"
+          for ftxt in (Big.c09Scan sc.ops model).2 do IO.println s!"VM {sc.id} C09 FAIL {ftxt}"
         if cfg.props.contains "C04" then
           let (k, fs) := Big.c04Verdicts sc impl
           if fs.isEmpty then IO.println s!"V {sc.id} C04 ok n={k}"
@@ -183,7 +194,8 @@ partial def loop (hs ht : IO.FS.Handle) (cfg : Cfg) (n drift : Nat) : IO (Nat ×
           -- recovery: the suffix after [reset; init; op] against the never-failed twin
           IO.println s!"O {sc.id} C04 {Big.suffixDigest impl 3}"
         if cfg.props.contains "C10" then
-          let (k, fs) := Big.c10Verdicts sc impl
+          let (k, fs0) := Big.c10Verdicts sc impl
+          let fs := fs0 ++ Big.c10Cmds sc.ops model impl
           if fs.isEmpty then IO.println s!"V {sc.id} C10 ok n={k}"
           else for ftxt in fs.eraseDups do IO.println s!"V {sc.id} C10 FAIL {ftxt}"
           for ftxt in (Big.c10Verdicts sc model).2.eraseDups do IO.println s!"VM {sc.id} C10 FAIL {ftxt}"
